@@ -100,6 +100,7 @@ type VC struct {
 	reach      map[*ssa.BasicBlock]map[*ssa.BasicBlock]bool // reachability in the CFG without back edges
 	allocBlock map[string]*ssa.BasicBlock // allocation constants (and values defined from them) -> block
 	loops      []*loopInfo
+	loopHead   map[*loopInfo]*State
 }
 
 func (vc *VC) fresh(prefix, sort string) string {
@@ -496,7 +497,14 @@ func (vc *VC) load(st *State, p Term) Term {
 	if l := p.Loc; l != nil {
 		switch l.Kind {
 		case locField:
-			return vc.subValue(vc.readField(st, l.Base.S, l.Struct, l.Field), l)
+			t := vc.subValue(vc.readField(st, l.Base.S, l.Struct, l.Field), l)
+			if len(l.Sub) == 0 {
+				if _, isChan := types.Unalias(t.T).Underlying().(*types.Chan); isChan {
+					sf, _ := isStruct(l.Struct)
+					t.Prov = vc.ss().structKey(l.Struct) + "." + sf.Field(l.Field).Name()
+				}
+			}
+			return t
 		case locElem:
 			v := vc.elemRead(st, l.Base.S, l.Idx.S, l.ElemT)
 			return vc.subValue(v, l)
